@@ -57,7 +57,7 @@ def removeAtEntries : List (Key × Node) → Key → Addr → List (Key × Node)
     if k' = k then
       match rest with
       | [] => removeAtEntries es k []
-      | r :: t => (k', c.removeAt (r :: t)) :: es
+      | r :: t => (k', c.removeAt (r :: t)) :: removeAtEntries es k (r :: t)
     else (k', c) :: removeAtEntries es k rest
 end
 
